@@ -129,8 +129,12 @@ fn codec<T: Form + CborSerializable + Clone + PartialEq>(op: &str, arg: &Sx, o: 
             // R1
             let r1 = res_form(o, guard(|| T::from_slice(&b)));
             o.push(' ');
-            // R2
-            match guard(|| Value::from_slice(&b)) {
+            // R2: parse with ciborium itself (not through the crate's `read_to_value`), refuse trailing bytes, then convert
+            match guard(|| {
+                let mut rest: &[u8] = &b;
+                let v: Value = coset::cbor::de::from_reader(&mut rest).map_err(|_| CoseError::DecodeFailed(coset::cbor::de::Error::Syntax(0)))?;
+                if rest.is_empty() { Ok(v) } else { Err(CoseError::ExtraneousData) }
+            }) {
                 None => o.push_str("panic"),
                 Some(Err(e)) => {
                     o.push_str("err ");
